@@ -108,6 +108,18 @@ class Script:
                         self.stash.append(dict(d))
                 if not sim.adversarial_step():
                     break
+        elif verb == "handshake":
+            c, v = sim.client.conn, sim.server.conn
+            sim.fair_phase(max_steps=200, done=lambda: c._handshake_confirmed and v._handshake_confirmed
+                           and not sim.pending)
+        elif verb == "quiesce":
+            # deliver what is in flight (and the answers), no timer fires
+            for _ in range(a[2]):
+                if not sim.pending:
+                    break
+                d = sim.pending.pop(0)
+                sim.now += 0.001
+                sim.deliver(d)
         elif verb == "fair":
             sim.fair_phase(max_steps=a[2])
         elif verb == "write":
@@ -163,6 +175,21 @@ class Script:
                 if not sim.fire_timer(ep):
                     break
             sim.pending.clear()
+        elif verb == "replay-dup":
+            # total blackout in which the network re-delivers, `n` times and `dt` apart,
+            # the k-th last datagram `who` already received (a duplicate); timers whose
+            # deadline passes in between fire at their deadline
+            _, _, k, dt, n = a
+            st = self.mon.eps[who]
+            for _ in range(n):
+                sim.pending.clear()
+                self.advance(sim.now + dt)
+                if not st.delivered or ep.terminated:
+                    break
+                d = dict(st.delivered[-min(k, len(st.delivered))])
+                sim.pending.clear()
+                sim.deliver(d)
+                sim.pending.clear()
         elif verb == "blackout":
             sim.pending.clear()
             self.blackout = a[2]
@@ -190,6 +217,27 @@ class Script:
             sim.transmit(ep)
         else:
             raise ValueError(verb)
+
+    def advance(self, target):
+        """let virtual time pass until `target`, firing every timer at its deadline"""
+        sim = self.sim
+        for _ in range(200):
+            best = None
+            for e in sim.endpoints:
+                if getattr(e, "started", False) and not e.terminated:
+                    t = sim.check_timer(e)
+                    if t is not None and t <= target and (best is None or t < best[0]):
+                        best = (t, e)
+            if best is None:
+                break
+            before = sim.now
+            sim.pending.clear()
+            sim.fire_timer(best[1])
+            sim.pending.clear()
+            if sim.now == before and best[0] <= before:
+                sim.now = min(target, sim.now + 0.01)     # a deadline in the past: time passes while the caller spins
+        if sim.now < target:
+            sim.now = target
 
     def rand_close_args(self):
         r = self.r
@@ -222,8 +270,10 @@ class Script:
             return ("blackout", None, r.choice([3, 10, 40]))
         if x < 0.93:
             return ("timer", who, r.choice([0.0, 0.0, 0.001, 0.3, 5.0]), r.choice([0.0, 0.0, 0.05]))
-        if x < 0.95:
+        if x < 0.94:
             return ("replay", None, r.randrange(6))
+        if x < 0.95:
+            return ("replay-dup", who, r.choice([1, 2, 5]), r.choice([0.05, 0.4, 1.5]), r.choice([1, 3, 6]))
         if x < 0.97:
             return ("garbage", who, r.choice([b"\x40" + bytes(30), b"\xc0\x00\x00\x00\x01\x08" + bytes(40), b"", b"\x00"]))
         if x < 0.985:
@@ -370,9 +420,11 @@ def oracle(st, started, finished):
         if api == "receive_datagram":
             d0 = rec.get("data0", b"")
             vn_or_retry = len(d0) >= 5 and d0[0] & 0x80 and (d0[1:5] == b"\0\0\0\0" or (d0[0] & 0x30) in (0x30, 0x00))
-            if rec.get("auth") or vn_or_retry or last_activity is None:
+            # activity = a NEW packet of the peer authenticated; a duplicate (same packet
+            # number space and packet number as an earlier one) carries nothing new
+            if any(not a[3] for a in rec.get("auth", [])) or vn_or_retry or last_activity is None:
                 last_activity = (rec["now"], max(rec["idle_before"], rec.get("idle_after", 0.0)))
-            if close_start is None and any(has_close(fr) for _, fr in rec.get("auth", [])) and not term_seen:
+            if close_start is None and any(has_close(a[1]) for a in rec.get("auth", []) if not a[3]) and not term_seen:
                 pto = max(rec["pto_before"], rec.get("pto_after") or 0.0)
                 close_start = (i, rec["now"], rec["now"] + 3 * pto)
         if api == "datagrams_to_send":
@@ -576,6 +628,14 @@ def small_scope_plans(F):
                   ("inject", "client", "INITIAL", b"\x3f", False, 1200)])
     plans.append([("options", None, 60.0, 60.0), ("connect", None), ("serve-one", None), ("drain-budget", "server", 8),
                   ("inject", "client", "INITIAL", F.enc_close(10, 6, b"bye"), False, 1200)])
+    # a blackout in which the network keeps re-delivering an old datagram: duplicates
+    # carry nothing new, the idle deadline must not move
+    for who in ("server", "client"):
+        for k in (1, 3):
+            plans.append([("options", None, 2.0, 2.0), ("connect", None), ("handshake", None),
+                          ("write", "client"), ("quiesce", None, 10), ("replay-dup", who, k, 1.5, 6)])
+    plans.append([("options", None, 2.0, 2.0), ("connect", None), ("fair", None, 3),
+                  ("replay-dup", "server", 1, 1.5, 6)])
     plans.append([("options", None, 60.0, 60.0), ("connect", None), ("serve-one", None), ("drain-budget", "server", 2),
                   ("close", "server", (0, None, ""), True)])
     return plans
@@ -636,6 +696,22 @@ def main(tier):
             cases = []
     correspond(ctx, "close-random", cases)
     ctx.notes["state_lines"] = states
+
+    def search():
+        """a proof obligation / the correspondence broke but no run above violated the
+        oracle: run the small-scope plans the quick tier skipped and more random
+        scripts, oracle only, until a concrete failing input shows up"""
+        done = {k for k, _ in plans}
+        for k, plan in enumerate(small_scope_plans(F)):
+            if k not in done:
+                run_one(ctx, 1000 + k, "plan", plan, None)
+                if ctx.witnesses:
+                    return
+        for k in range(n, n + 400):
+            run_one(ctx, base + k, "random", None, None)
+            if ctx.witnesses:
+                return
+    ctx.search = search
     ctx.cov["exhaustive"] = False
     ctx.cov["rule"] = (
         "small scope: every single close/inject(peer close, fatal frame, reserved bits, app close; Initial/Handshake/1-RTT)/"
